@@ -81,6 +81,9 @@ func VerifPretty() {
 	if (shape == 9 || shape == 10) && (width != pWidths[0] || depth != 1) {
 		vx.Assume(false) // the deep shapes are costly: one width and depth setting
 	}
+	if shape == 11 && width == pWidths[3] {
+		vx.Assume(false) // the quoted-key rows were measured with the first three widths only
+	}
 	v := pTree(shape)
 	vx.Key("shape", shape)
 	vx.Key("width", width)
